@@ -1,0 +1,34 @@
+//go:build verif
+
+// Exported wrappers for the runtime-monitoring harness in /verif (property C16).
+// Compiled only with -tags verif. Adds no behaviour; only exposes unexported
+// anchors (the transition table and the local state of a Session).
+
+package bfd
+
+// Numeric names of the state machine's states and events as used by
+// VerifTransition. The state values are the wire values of RFC 5880.
+const (
+	VerifStateAdminDown = uint8(stateAdminDown)
+	VerifStateDown      = uint8(stateDown)
+	VerifStateInit      = uint8(stateInit)
+	VerifStateUp        = uint8(stateUp)
+
+	VerifEventAdminDown = int(eventAdminDown)
+	VerifEventDown      = int(eventDown)
+	VerifEventInit      = int(eventInit)
+	VerifEventUp        = int(eventUp)
+	VerifEventTimer     = int(eventTimer)
+	VerifEventAdminUp   = int(eventAdminUp)
+)
+
+// VerifTransition is transition(): the raw state machine table.
+func VerifTransition(s uint8, e int) uint8 {
+	return uint8(transition(state(s), event(e)))
+}
+
+// VerifLocalState returns the session's local state (the value that is put in
+// the State field of transmitted control packets).
+func (s *Session) VerifLocalState() uint8 {
+	return uint8(s.getLocalState())
+}
